@@ -142,6 +142,8 @@ impl Property for C13 {
             1 => "[\\x00-\\x1f]{1,3}",
             1 => "(de|en|es|fr|it|nl|pt)[a-z]{2,5}",
             1 => "[éèüßñçøж日]{1,3}",
+            // words a careless lookup might accept: language names (English and native), none is a code
+            2 => (0usize..26).prop_map(|i| ["english", "german", "deutsch", "french", "français", "francais", "spanish", "español", "espanol", "italian", "italiano", "dutch", "nederlands", "portuguese", "português", "portugues", "English", "Deutsch", "FRENCH", "castellano", "flemish", "brazilian", "latin", "esperanto", "klingon", "language"][i].to_string()),
         ];
         (super::common::text_case(25, 10), code).prop_map(|(tc, code)| Case { lang: tc.lang.clone(), text: tc.text(), th_bits: tc.th_bits, code }).boxed()
     }
